@@ -1,6 +1,6 @@
 import PoryProofs.ParserScopesTop
 import PoryProofs.ParserFuel4
-import PoryProofs.MarkerTokens
+import PoryProofs.MarkerTokensND
 /-
 Token provenance in the parser (C16, parser side), part 1: predicates, the calculus and the
 functions below the statement level.
